@@ -274,7 +274,16 @@ TyExprs(t) ==
               FnN("hmax", <<Col(c), LitI(0)>>), Fn1("abs", Col(c)), Fn1("neg", Col(c)),
               Agg("sum", Col(c)), Agg("mean", Col(c)), Agg("min", Col(c)), Agg("count", Col(c)), Len0,
               Win("rank", <<>>, <<Ord(Col(c), FALSE, "first")>>),
-              Shift(Col(c), 1, <<>>, <<Ord(Col(c), FALSE, "first")>>)>>))
+              Shift(Col(c), 1, <<>>, <<Ord(Col(c), FALSE, "first")>>),
+              \* argument forms that change or must keep the type: decimals < 0, float bounds on an integer column, float fill value
+              Fn2("round", Col(c), LitI(-1)), Fn2("round", Col(c), LitI(0)), Fn2("round", Col(c), LitI(1)),
+              Fn3("clip", Col(c), LitF(1, 2), LitF(5, 2)), Fn3("clip", Col(c), LitI(0), LitI(2)),
+              Fn2("fill_null", Col(c), LitF(1, 2)), FnN("hmax", <<Col(c), LitF(1, 2)>>), FnN("coalesce", <<Col(c), LitF(1, 2)>>),
+              FnN("is_in", <<Col(c), LitI(1), LitF(1, 2)>>), Fn2("pow", Col(c), LitI(2))>>))
+        \* two integer columns of different width / signedness in one expression
+        \o (IF Len(iv) >= 2 THEN <<Case1D(Fn2("gt", Col(iv[1]), LitI(0)), Col(iv[1]), Col(iv[2])), FnN("hmax", <<Col(iv[1]), Col(iv[2])>>),
+                                    FnN("coalesce", <<Col(iv[1]), Col(iv[2])>>), Fn2("add", Col(iv[1]), Col(iv[2])),
+                                    Fn2("fill_null", Col(iv[1]), Col(iv[2]))>> ELSE <<>>)
         \o Flat(MapS(fv, LAMBDA c :
             <<Fn2("add", Col(c), LitI(1)), Fn2("mul", Col(c), Col(c)), Cast(Col(c), "int"), Fn1("floor", Col(c)), Fn1("ceil", Col(c)),
               Fn2("lt", Col(c), LitI(1)), Agg("sum", Col(c)), Agg("mean", Col(c)), Agg("max", Col(c)),
